@@ -690,10 +690,19 @@ pub fn run_with(args: &Args, focus: Focus) -> i32 {
     }));
     let n = args.n.unwrap_or(if args.thorough { 40_000 } else { 1_500 });
     let root = Rng::new(args.seed ^ focus.prop.bytes().fold(0u64, |a, b| a.wrapping_mul(131) + b as u64));
-    let cases = out::run_forked(&args.out, n, 12, &|i| {
+    let mut cases = out::run_forked(&args.out, n, 12, &|i| {
         let mut r = root.fork(i as u64);
         one_case(&mut r, &focus, &silent)
     });
+    if focus.prop == "C03" {
+        // Second part: futures and ring on different threads.
+        let n2 = if args.thorough { 20_000 } else { 1_500 };
+        let more = out::run_forked(&args.out, n2, 12, &|i| {
+            let mut r = root.fork(1_000_000 + i as u64);
+            sched_case(&mut r, &silent)
+        });
+        cases.extend(more);
+    }
     let _ = std::panic::take_hook();
     let spec = Spec { prop: focus.prop, imports: &["Model.OpState"], run_fn: "run_opcase", case_ty: "opcase", shard: 400 };
     out::write_all(&args.out, &spec, &cases, &[]);
@@ -709,4 +718,159 @@ pub fn run(args: &Args) -> i32 {
         _ => Focus { prop: "C09", weights: [5, 1, 3, 5], restart_bias: 50, replace_waker_bias: 30 },
     };
     run_with(args, focus)
+}
+
+// ---------------------------------------------------------------------------------------------
+// C03, two threads: the futures are polled on one thread while the ring is polled on another,
+// interleaved by the baton scheduler at every hook-B point. No model replay here (the model's
+// steps are whole API calls); the oracle is the property itself: after the race and a few more
+// `Ring::poll` calls every future that is still pending must have been woken since its last poll.
+
+pub fn sched_case(r: &mut Rng, silent: &Arc<Mutex<Option<String>>>) -> Case {
+    use crate::sched;
+    let cap = *r.pick(&[1u32, 1, 2]);
+    let n_futs = r.range(2, 4) as usize;
+    let ring_polls = r.range(1, 4) as usize;
+    let rounds = r.range(1, 3) as usize;
+    let preempt = *r.pick(&[10u64, 25, 40, 60]);
+    let prefix: Vec<usize> = (0..300).map(|_| if r.below(100) < preempt { 1 } else { 0 }).collect();
+    simk::configure(simk::SetupConfig { sq_start: r.next() as u32, cq_start: r.next() as u32, auto_complete: Some((7, 0)), ..Default::default() });
+    let ring = a10::Ring::config().with_submission_queue_size(cap).with_completion_queue_size(64).build().expect("ring on the simulated kernel");
+    let ring_fd = simk::with(|s| s.fd);
+    let sq = ring.sq();
+    let wakes = WakeLog::default();
+    let mut fds: Vec<Box<ManuallyDrop<a10::AsyncFd>>> = Vec::new();
+    type BoxFut = Pin<Box<dyn Future<Output = std::io::Result<usize>> + Send>>;
+    let mut futs: Vec<BoxFut> = Vec::new();
+    for i in 0..n_futs {
+        simk::add_fake_fd(fake_fd(i));
+        let fd = Box::new(ManuallyDrop::new(unsafe { a10::AsyncFd::from_raw_fd(fake_fd(i), sq.clone()) }));
+        let fd_ref: &'static a10::AsyncFd = unsafe { &*(&**fd as *const a10::AsyncFd) };
+        fds.push(fd);
+        futs.push(Box::pin(fd_ref.write(DATA)));
+    }
+    // Shared bookkeeping: per future (finished, polled at least once); wake flags come from the log.
+    struct Shared {
+        futs: Vec<Option<Pin<Box<dyn Future<Output = std::io::Result<usize>> + Send>>>>,
+        pending_since_wake: Vec<bool>, // last poll returned Pending and no wake seen since
+        polled: Vec<bool>,
+    }
+    let shared = Arc::new(Mutex::new(Shared { futs: futs.into_iter().map(Some).collect(), pending_since_wake: vec![false; n_futs], polled: vec![false; n_futs] }));
+    let ring_cell = Arc::new(Mutex::new(Some(ring)));
+    let mut threads: Vec<Box<dyn FnOnce() + Send>> = Vec::new();
+    {
+        let ring_cell = ring_cell.clone();
+        threads.push(Box::new(move || {
+            let mut ring = ring_cell.lock().unwrap().take().unwrap();
+            for _ in 0..ring_polls {
+                let _ = ring.poll(Some(Duration::ZERO));
+            }
+            *ring_cell.lock().unwrap() = Some(ring);
+        }));
+    }
+    {
+        let shared = shared.clone();
+        let wakes = wakes.clone();
+        threads.push(Box::new(move || {
+            for round in 0..=rounds {
+                // Account for wake-ups seen so far.
+                let woken = wakes.take();
+                for i in 0..n_futs {
+                    let need = {
+                        let mut sh = shared.lock().unwrap();
+                        if woken.contains(&(i as u64)) {
+                            sh.pending_since_wake[i] = false;
+                        }
+                        sh.futs[i].is_some() && (!sh.polled[i] || !sh.pending_since_wake[i])
+                    };
+                    if !need {
+                        continue;
+                    }
+                    // Take the future out while polling: the poll runs a10 code with scheduling
+                    // points, the bookkeeping lock must not be held across it.
+                    let mut f = shared.lock().unwrap().futs[i].take().unwrap();
+                    let w = wakes.waker(i as u64);
+                    let res = poll_once(f.as_mut(), &w);
+                    let mut sh = shared.lock().unwrap();
+                    sh.polled[i] = true;
+                    match res {
+                        Poll::Pending => {
+                            sh.pending_since_wake[i] = true;
+                            sh.futs[i] = Some(f);
+                        }
+                        Poll::Ready(_) => {
+                            sh.pending_since_wake[i] = false;
+                            drop(f);
+                        }
+                    }
+                }
+                if round < rounds {
+                    sched::yield_point(100);
+                }
+            }
+        }));
+    }
+    let _ = simk::with(|s| s.take_log());
+    let out = sched::run(threads, &prefix);
+    let mut oracle: Option<String> = None;
+    if let Some(p) = &out.panicked {
+        let msg = silent.lock().unwrap().take().unwrap_or_default();
+        oracle = Some(format!("a thread panicked: {p} {msg}"));
+    }
+    // More Ring::poll calls, nothing else happening: every pending future must get its wake-up.
+    let mut ring = ring_cell.lock().unwrap().take();
+    if let Some(ring) = ring.as_mut() {
+        for _ in 0..(n_futs + 2) {
+            let _ = std::panic::catch_unwind(std::panic::AssertUnwindSafe(|| ring.poll(Some(Duration::ZERO))));
+        }
+    }
+    let woken = wakes.take();
+    {
+        let mut sh = shared.lock().unwrap();
+        for i in 0..n_futs {
+            if woken.contains(&(i as u64)) {
+                sh.pending_since_wake[i] = false;
+            }
+            if sh.futs[i].is_some() && sh.polled[i] && sh.pending_since_wake[i] && oracle.is_none() {
+                let parked = simk::with(|s| s.sq_pending()) == 0;
+                oracle = Some(format!(
+                    "future {i} returned Pending and was never woken although Ring::poll was called {} more times afterwards ({}); an executor that re-polls only when woken is stuck",
+                    n_futs + 2,
+                    if parked { "the submission queue is empty: it was waiting for a slot" } else { "its completion was processed" }
+                ));
+            }
+        }
+    }
+    for e in simk::with(|s| s.take_log()) {
+        if let Ev::Corrupt { what } = e {
+            oracle.get_or_insert(what);
+        }
+    }
+    // Teardown.
+    let rest: Vec<_> = shared.lock().unwrap().futs.drain(..).collect();
+    let _ = std::panic::catch_unwind(std::panic::AssertUnwindSafe(move || drop(rest)));
+    drop(sq);
+    let _ = std::panic::catch_unwind(std::panic::AssertUnwindSafe(move || drop(ring)));
+    for fd in fds {
+        drop(ManuallyDrop::into_inner(*fd));
+    }
+    simk::retire(ring_fd);
+    let mut js = String::new();
+    for (k, (t, p)) in out.exec.iter().enumerate() {
+        if k > 0 {
+            js.push(',');
+        }
+        let _ = write!(js, "\"T{t}@{p}\"");
+    }
+    let preemptions = out.trace.iter().filter(|t| t.2).count();
+    let json = format!("{{\"two_threads\":true,\"sq_entries\":{cap},\"futures\":{n_futs},\"ring_polls\":{ring_polls},\"rounds\":{rounds},\"schedule\":[{js}]}}");
+    Case {
+        coq: String::new(),
+        obs: vec![],
+        json,
+        oracle,
+        known: None,
+        tags: vec![format!("two-thread:cap{cap}"), format!("two-thread:preemptions:{}", preemptions.min(6))],
+        nontrivial: preemptions > 0,
+    }
 }
